@@ -84,11 +84,18 @@ def analyse(ctx, want_prefix: str):
     fwhere = core.loc(COMPACT, st.fn)
     for text, node in st.problems:
         ob(want_prefix + ".0", f"{Q}: {text}", core.UNDECIDED, core.loc(COMPACT, node), "compact has left the modelled shape (sorted copy; pass loop; index scan)")
+    su = Setup(ctx)
+    # ---- witness search on small list shapes (independent of the shape of the code) ----------------------------------
+    from . import compact_scenarios
+    try:
+        sc_stats = compact_scenarios.run(ob, su, want_prefix)
+    except (Budget, _Unmodelled) as e:
+        sc_stats = {"scenarios": 0, "decided": 0, "not_modelled": 0, "stopped": str(e)}
+    ctx.analysed["list_shape_scenarios"] = sc_stats
     if not st.ok:
         ob(want_prefix + ".0", f"{Q}: structure not recognised", core.UNDECIDED, fwhere,
-           "the pass/scan structure of compact was not found; no obligation about it is decided")
+           "the pass/scan structure of compact was not found; only the list-shape scenarios above say anything about it")
         return None
-    su = Setup(ctx)
     interp, consts = su.interp, su.consts
     MAX = consts.MAX
     ctx.analysed["structure"] = {"working_list": st.W, "index": st.idx, "result": st.result, "flag": st.flag,
